@@ -23,8 +23,10 @@ def set_type_warning_level(level: TypeWarningLevel) -> None:
 def type_warning_level(level: TypeWarningLevel):
     prev_level = spox._node._TYPE_WARNING_LEVEL
     set_type_warning_level(level)
-    yield
-    set_type_warning_level(prev_level)
+    try:
+        yield
+    finally:
+        set_type_warning_level(prev_level)
 
 
 ValuePropBackend = spox._value_prop.ValuePropBackend
@@ -38,8 +40,10 @@ def set_value_prop_backend(backend: ValuePropBackend) -> None:
 def value_prop_backend(backend: ValuePropBackend):
     prev_backend = spox._value_prop._VALUE_PROP_BACKEND
     set_value_prop_backend(backend)
-    yield
-    set_value_prop_backend(prev_backend)
+    try:
+        yield
+    finally:
+        set_value_prop_backend(prev_backend)
 
 
 def initializer(value: npt.ArrayLike, dtype: npt.DTypeLike = None) -> Var:
@@ -201,8 +205,10 @@ def operator_overloading(
     Var._operator_dispatcher = _NumpyLikeOperatorDispatcher(
         op, type_promotion, constant_promotion
     )
-    yield
-    Var._operator_dispatcher = prev_dispatcher
+    try:
+        yield
+    finally:
+        Var._operator_dispatcher = prev_dispatcher
 
 
 __all__ = [
